@@ -221,3 +221,168 @@ Proof.
   - destruct ok; split; reflexivity.
   - transitivity (cview (get_radio w1 si)); [destruct ok; reflexivity|]. apply get_radio_cview_eq. exact HW.
 Qed.
+
+(* ---- delivery: what an exchange puts into a receiver's RX FIFO ---- *)
+Definition is_dup (r : radio) (pid : N) (d : list N) : bool :=
+  match last_rx r with Some (q, d') => (q =? pid) && list_eqb d d' | None => false end.
+
+Lemma list_eqb_refl l : list_eqb l l = true.
+Proof. induction l as [|x t IH]; cbn [list_eqb]; [reflexivity|]. rewrite N.eqb_refl, IH. reflexivity. Qed.
+
+(* a fresh packet on a non-full FIFO is appended, on the pipe it matched, and remembered *)
+Lemma receive_fresh r p pid noack d h : rx_full r = false -> is_dup r pid d = false ->
+  let r' := fst (fst (receive r p pid noack d h)) in
+  rx_fifo r' = rx_fifo r ++ [(p, d)] /\ last_rx r' = Some (pid, d).
+Proof.
+  intros Hf Hd. unfold receive. rewrite Hf. unfold is_dup in Hd. rewrite Hd. cbv zeta.
+  repeat match goal with
+         | |- context [if ?c then _ else _] => destruct c
+         | |- context [match take_ack ?a ?b with _ => _ end] => destruct (take_ack a b) as [[? ?]|]
+         end; split; reflexivity.
+Qed.
+
+(* a repeated packet (same PID and payload as the last one accepted) never enters the FIFO again *)
+Lemma receive_dup r p pid noack d h : is_dup r pid d = true ->
+  let r' := fst (fst (receive r p pid noack d h)) in
+  rx_fifo r' = rx_fifo r /\ last_rx r' = last_rx r.
+Proof.
+  intros Hd. unfold receive. destruct (rx_full r); [split; reflexivity|]. unfold is_dup in Hd. rewrite Hd. cbv zeta.
+  repeat match goal with
+         | |- context [if ?c then _ else _] => destruct c
+         | |- context [match take_ack ?a ?b with _ => _ end] => destruct (take_ack a b) as [[? ?]|]
+         end; split; reflexivity.
+Qed.
+
+Lemma deliver_at s si rs : forall j0 pid noack d h k, (k < length rs)%nat ->
+  nth k (fst (fst (fst (deliver s si rs j0 pid noack d h)))) (reset_radio true) =
+  let r := nth k rs (reset_radio true) in
+  if Nat.eqb (j0 + k) si then r
+  else match rx_pipe s r d with
+       | None => r
+       | Some p => fst (fst (receive r p pid noack d h))
+       end.
+Proof.
+  induction rs as [|r t IH]; intros j0 pid noack d h k Hk; [cbn in Hk; lia|].
+  cbn [deliver]. specialize (IH (S j0) pid noack d h).
+  destruct (deliver s si t (S j0) pid noack d h) as [[[t' acked] apl] who]. cbn [fst] in IH.
+  destruct k as [|k].
+  - rewrite Nat.add_0_r. cbn [nth]. destruct (Nat.eqb j0 si); [reflexivity|].
+    destruct (rx_pipe s r d) as [p|]; [destruct (receive r p pid noack d h) as [[r' a] pl]|]; reflexivity.
+  - assert (Hk' : (k < length t)%nat) by (cbn in Hk; lia). specialize (IH k Hk').
+    replace (j0 + S k)%nat with (S j0 + k)%nat by lia.
+    destruct (Nat.eqb j0 si); [cbn [fst nth]; exact IH|].
+    destruct (rx_pipe s r d) as [p|]; [destruct (receive r p pid noack d h) as [[r' a] pl]|]; cbn [fst nth]; exact IH.
+Qed.
+
+Lemma deliver_length s si rs : forall j0 pid noack d h,
+  length (fst (fst (fst (deliver s si rs j0 pid noack d h)))) = length rs.
+Proof.
+  intros. pose proof (f_equal (@length cfg) (deliver_cview s si rs j0 pid noack d h)) as H. rewrite !map_length in H. exact H.
+Qed.
+
+(* once radio j has accepted (pid, data), no further attempt of the same exchange changes its RX FIFO *)
+Lemma attempt_receiver_dup fuel : forall w si e noack expects made j,
+  j <> si -> is_dup (get_radio w j) (tx_pid e) (tx_data e) = true ->
+  let w' := fst (fst (fst (attempt w si e noack expects fuel made))) in
+  rx_fifo (get_radio w' j) = rx_fifo (get_radio w j) /\ is_dup (get_radio w' j) (tx_pid e) (tx_data e) = true.
+Proof.
+  induction fuel as [|k IH]; intros w si e noack expects made j Hj Hd; [split; [reflexivity|exact Hd]|].
+  cbn [attempt].
+  assert (Hn : get_radio (snd (next_fate w)) j = get_radio w j) by (unfold next_fate; destruct (oracle w); reflexivity).
+  destruct (next_fate w) as [f w1]. cbn [snd] in Hn.
+  assert (Step : forall h,
+            let rs' := fst (fst (fst (deliver (get_radio w si) si (radios w1) 0 (tx_pid e) noack (tx_data e) h))) in
+            rx_fifo (nth j rs' (reset_radio true)) = rx_fifo (get_radio w j)
+            /\ is_dup (nth j rs' (reset_radio true)) (tx_pid e) (tx_data e) = true).
+  { intro h. cbv zeta. destruct (Nat.lt_ge_cases j (length (radios w1))) as [Hl|Hl].
+    - rewrite deliver_at by exact Hl. cbv zeta. cbn [Nat.add].
+      replace (Nat.eqb j si) with false by (symmetry; apply Nat.eqb_neq; exact Hj).
+      fold (get_radio w1 j). rewrite Hn.
+      destruct (rx_pipe (get_radio w si) (get_radio w j) (tx_data e)) as [p|]; [|split; [reflexivity|exact Hd]].
+      destruct (receive_dup (get_radio w j) p (tx_pid e) noack (tx_data e) h Hd) as [A B].
+      split; [exact A|]. unfold is_dup. rewrite B. exact Hd.
+    - rewrite nth_overflow by (rewrite deliver_length; exact Hl).
+      assert (E : get_radio w1 j = reset_radio true) by (unfold get_radio; apply nth_overflow; exact Hl).
+      rewrite E in Hn. rewrite Hn. split; [reflexivity|exact Hd]. }
+  destruct f.
+  - specialize (Step (expects && hears_ack (get_radio w si))). cbv zeta in Step.
+    destruct (deliver _ _ _ _ _ _ _ _) as [[[rs' acked] apl] who]. cbn [fst] in Step. destruct Step as [S1 S2].
+    cbv zeta. destruct (negb expects); [cbn [fst]; split; assumption|].
+    match goal with |- context [if ?c then _ else _] => destruct c end.
+    + cbn [fst]. rewrite get_set_radio_other by congruence. split; assumption.
+    + specialize (IH (mkWorld rs' (oracle w1) (air w1) (clock w1)) si e noack expects (made + 1) j Hj S2).
+      destruct (attempt _ _ _ _ _ _ _) as [[[w3 ok] m] who']. cbn [fst] in IH |- *. destruct IH as [I1 I2].
+      split; [rewrite I1; exact S1|exact I2].
+  - destruct expects; [|cbn [fst]; rewrite Hn; split; [reflexivity|exact Hd]].
+    specialize (IH w1 si e noack true (made + 1) j Hj). rewrite Hn in IH. exact (IH Hd).
+  - specialize (Step (expects && false)). cbv zeta in Step.
+    destruct (deliver _ _ _ _ _ _ _ _) as [[[rs' acked] apl] who]. cbn [fst] in Step. destruct Step as [S1 S2].
+    cbv zeta. destruct (negb expects); [cbn [fst]; split; assumption|].
+    match goal with |- context [if ?c then _ else _] => destruct c end.
+    + cbn [fst]. rewrite get_set_radio_other by congruence. split; assumption.
+    + specialize (IH (mkWorld rs' (oracle w1) (air w1) (clock w1)) si e noack expects (made + 1) j Hj S2).
+      destruct (attempt _ _ _ _ _ _ _) as [[[w3 ok] m] who']. cbn [fst] in IH |- *. destruct IH as [I1 I2].
+      split; [rewrite I1; exact S1|exact I2].
+Qed.
+
+Lemma is_dup_after_fresh r p pid noack d h : rx_full r = false -> is_dup r pid d = false ->
+  is_dup (fst (fst (receive r p pid noack d h))) pid d = true.
+Proof.
+  intros Hf Hd. destruct (receive_fresh r p pid noack d h Hf Hd) as [_ L]. unfold is_dup. rewrite L.
+  rewrite N.eqb_refl, list_eqb_refl. reflexivity.
+Qed.
+
+(* C01, environment side: when the first attempt of an exchange is not lost, a listening radio whose pipe p matches
+   (address, channel, rate, CRC, width, payload format) and whose RX FIFO has room receives the payload exactly
+   once on pipe p -- however many retransmissions and lost ACKs follow *)
+Theorem exchange_delivers w si j e rest p :
+  (si < length (radios w))%nat -> (j < length (radios w))%nat -> j <> si ->
+  tx_fifo (get_radio w si) = e :: rest ->
+  match oracle w with PacketLost :: _ => False | _ => True end ->
+  rx_pipe (get_radio w si) (get_radio w j) (tx_data e) = Some p ->
+  rx_full (get_radio w j) = false -> is_dup (get_radio w j) (tx_pid e) (tx_data e) = false ->
+  rx_fifo (get_radio (exchange w si) j) = rx_fifo (get_radio w j) ++ [(p, tx_data e)].
+Proof.
+  intros Hsi Hj Hne Ht Hor Hp Hfull Hdup. unfold exchange. rewrite Ht. cbv zeta.
+  set (noack := match tx_kind e with TxNoAck => en_dyn_ack (get_radio w si) | _ => false end).
+  set (expects := bitb (sreg (get_radio w si) R_EN_AA) 0 && negb noack).
+  assert (Core : forall k made,
+            rx_fifo (get_radio (fst (fst (fst (attempt w si e noack expects (S k) made)))) j)
+            = rx_fifo (get_radio w j) ++ [(p, tx_data e)]).
+  { intros k made. cbn [attempt].
+    assert (Hw1 : radios (snd (next_fate w)) = radios w) by (unfold next_fate; destruct (oracle w); reflexivity).
+    assert (Hf : fst (next_fate w) <> PacketLost).
+    { unfold next_fate. destruct (oracle w) as [|f t]; cbn [fst]; [discriminate|]. destruct f; [discriminate|contradiction|discriminate]. }
+    destruct (next_fate w) as [f w1]. cbn [fst snd] in Hw1, Hf.
+    assert (Step : forall h,
+              let rs' := fst (fst (fst (deliver (get_radio w si) si (radios w1) 0 (tx_pid e) noack (tx_data e) h))) in
+              rx_fifo (nth j rs' (reset_radio true)) = rx_fifo (get_radio w j) ++ [(p, tx_data e)]
+              /\ is_dup (nth j rs' (reset_radio true)) (tx_pid e) (tx_data e) = true).
+    { intro h. cbv zeta. rewrite deliver_at by (rewrite Hw1; exact Hj). cbv zeta. cbn [Nat.add].
+      replace (Nat.eqb j si) with false by (symmetry; apply Nat.eqb_neq; exact Hne).
+      rewrite Hw1. fold (get_radio w j). rewrite Hp.
+      split; [apply (receive_fresh _ _ _ _ _ _ Hfull Hdup)|apply is_dup_after_fresh; assumption]. }
+    destruct f; [|contradiction|].
+    - specialize (Step (expects && hears_ack (get_radio w si))). cbv zeta in Step.
+      destruct (deliver _ _ _ _ _ _ _ _) as [[[rs' acked] apl] who]. cbn [fst] in Step. destruct Step as [S1 S2].
+      cbv zeta. destruct (negb expects); [cbn [fst]; exact S1|].
+      match goal with |- context [if ?c then _ else _] => destruct c end.
+      + cbn [fst]. rewrite get_set_radio_other by congruence. exact S1.
+      + pose proof (attempt_receiver_dup k (mkWorld rs' (oracle w1) (air w1) (clock w1)) si e noack expects (made + 1) j Hne S2) as A.
+        cbv zeta in A. destruct (attempt _ _ _ _ _ _ _) as [[[w3 ok] m] who']. cbn [fst] in A |- *. rewrite (proj1 A). exact S1.
+    - specialize (Step (expects && false)). cbv zeta in Step.
+      destruct (deliver _ _ _ _ _ _ _ _) as [[[rs' acked] apl] who]. cbn [fst] in Step. destruct Step as [S1 S2].
+      cbv zeta. destruct (negb expects); [cbn [fst]; exact S1|].
+      match goal with |- context [if ?c then _ else _] => destruct c end.
+      + cbn [fst]. rewrite get_set_radio_other by congruence. exact S1.
+      + pose proof (attempt_receiver_dup k (mkWorld rs' (oracle w1) (air w1) (clock w1)) si e noack expects (made + 1) j Hne S2) as A.
+        cbv zeta in A. destruct (attempt _ _ _ _ _ _ _) as [[[w3 ok] m] who']. cbn [fst] in A |- *. rewrite (proj1 A). exact S1. }
+  assert (Fuel : exists k, (if expects then S (N.to_nat (N.land (sreg (get_radio w si) R_SETUP_RETR) 15)) else 1%nat) = S k)
+    by (destruct expects; eexists; reflexivity).
+  destruct Fuel as [k Ek]. rewrite Ek. specialize (Core k 0).
+  destruct (attempt w si e noack expects (S k) 0) as [[[w1 ok] made] who]. cbn [fst] in Core.
+  match goal with |- context [get_radio (mkWorld (radios (set_radio w1 si ?r)) ?o ?a ?c) j] =>
+    change (get_radio (mkWorld (radios (set_radio w1 si r)) o a c) j) with (get_radio (set_radio w1 si r) j)
+  end.
+  rewrite get_set_radio_other by congruence. exact Core.
+Qed.
